@@ -128,6 +128,7 @@ def Inst.abs (i : Inst) : AStore :=
 def Call.isStore : Call → Bool
   | .defSel _ _ => false
   | .rerun => false
+  | .runAcc => false
   | _ => true
 
 /-- the specification of every store call on the plain store -/
@@ -149,6 +150,9 @@ def specCall : Call → AStore → AStore × Res
   | .unload ok, a => ({ a with cur := 1, selFile := fun _ => false, selStr := fun _ => false }, .int (if ok then 0 else 1))
   | .defSel _ _, a => (a, .int 0)
   | .rerun, a => (a, .int 0)
+  | .accumulate, a => (a, .int 0)
+  | .clearAcc, a => (a, .int 0)
+  | .runAcc, a => (a, .int 0)
 
 theorem getD_lookup_setAssoc {β} (m : List (Int × β)) (k : Int) (v d : β) :
     (fun j => ((setAssoc m k v).lookup j).getD d) = upd (fun j => (m.lookup j).getD d) k v := by
@@ -188,6 +192,9 @@ theorem call_refines (i : Inst) (c : Call) (h : c.isStore = true) :
     congr 1 <;> funext k <;> by_cases hk : k = 1 <;> simp [List.lookup_cons, hk] <;> split <;> simp_all
   | defSel n f => simp [Call.isStore] at h
   | rerun => simp [Call.isStore] at h
+  | accumulate => simp [Inst.call, specCall, Inst.abs]
+  | clearAcc => simp [Inst.call, specCall, Inst.abs]
+  | runAcc => simp [Call.isStore] at h
 
 def runCalls (i : Inst) : List Call → Inst × List Res
   | [] => (i, [])
@@ -355,6 +362,19 @@ theorem call_render (id : Nat) (s : SInst) (c : Call) :
     · simp only [Inst.call, Inst.rerun, SInst.call, h1, h2, h3, hl, Bool.not_true, Bool.false_eq_true, if_false,
         foldl_punchName_render, SRes.render]
     · simp [Inst.call, Inst.rerun, SInst.call, h1, hl, SRes.render]
+  | accumulate => simp [Inst.call, SInst.call, SInst.render, SRes.render]
+  | clearAcc => simp [Inst.call, SInst.call, SInst.render, SRes.render]
+  | runAcc =>
+    have h0 : (s.render id).acc = s.acc := rfl
+    have h1 : (s.render id).loaded = s.loaded := rfl
+    have h2 : (s.render id).engSel = s.engSel := rfl
+    have h3 : (s.render id).selFileOn = s.selFileOn := rfl
+    by_cases ha : s.acc
+    · by_cases hl : s.loaded
+      · simp only [Inst.call, Inst.runAcc, Inst.rerun, SInst.call, h0, h1, h2, h3, ha, hl, if_true, Bool.not_true,
+          Bool.false_eq_true, if_false, foldl_punchName_render, SRes.render]
+      · simp [Inst.call, Inst.runAcc, Inst.rerun, SInst.call, h0, h1, ha, hl, SRes.render]
+    · simp [Inst.call, Inst.runAcc, SInst.call, h0, h1, ha, SRes.render]
 
 def srunCalls (i : SInst) : List Call → SInst × List SRes
   | [] => (i, [])
@@ -406,6 +426,7 @@ def Call.cName : Call → String
   | .setSelStrOn _ => "SetSelectedOutputStringOn" | .getSelStrOn => "GetSelectedOutputStringOn"
   | .setSelName _ => "SetSelectedOutputFileName" | .getSelName => "GetSelectedOutputFileName"
   | .unload _ => "LoadDatabase" | .defSel _ _ => "RunString" | .rerun => "RunString"
+  | .accumulate => "AccumulateLine" | .clearAcc => "ClearAccumulatedLines" | .runAcc => "RunAccumulated"
 
 /-- what a documentation class means as a result value -/
 def docResult (name : String) : PhreeqcVerif.Api.BadDoc → Option Res
@@ -435,6 +456,9 @@ theorem badResult_matches_doc (c : Call) :
   | unload ok => simp only [Call.cName, badResult]; decide
   | defSel n f => simp only [Call.cName, badResult]; decide
   | rerun => simp only [Call.cName, badResult]; decide
+  | accumulate => simp only [Call.cName, badResult]; decide
+  | clearAcc => simp only [Call.cName, badResult]; decide
+  | runAcc => simp only [Call.cName, badResult]; decide
 
 /-- non-vacuity of the refinement and of the id theorem on one history: switches, names, user numbers, a load, selected-output
 definitions with and without `-file` -/
